@@ -22,7 +22,7 @@ ANCHORS = ["decaylanguage.decay.viewer:DecayChainViewer._build_decay_graph", "de
 WORKERS = {"quick": 4, "thorough": 16}
 REQUIRED = {"line-without-daughters": 5, "branching-fraction-zero": 10, "table>=4-lines-distinct-bf": 20, "leaf-line-daughters-unsorted": 20, "repeated-decaying-daughter": 10, "empty-table-daughter": 10,
             "from-class-representation": 10, "evtgen-specific-name": 20, "alias-or-unknown-name": 20, "depth>=3": 10, "daughters>=5-in-ported-node": 5,
-            "graphs-in-one-process>=3": 1, "same-lists-in-both-node-roles": 10, "two-lines-same-daughters-same-bf": 5, "dot-accepted": 50}
+            "graphs-in-one-process>=3": 1, "same-lists-in-both-node-roles": 10, "two-lines-same-daughters-same-bf": 5, "dot-accepted": 50, "graph-made-in-a-worker-thread": 10, "branching-fraction-with>12-significant-digits": 20}
 ASSUMPTIONS = ["Graphviz `dot` and the particle package's LaTeX->HTML name conversion are trusted", "labels contain no '<' or '&' (label alphabet)",
                "the root identifier 'mother' is per graph; uniqueness across graphs is required of the per-line nodes"]
 
@@ -114,7 +114,29 @@ def check(ctx, chain, workload, wit_extra=None):
     m, exp, nlines = expected_of(chain)
     wit = {"kind": "graph", "chain": chain, **(wit_extra or {})}
     ctx.case(chain, nlines >= 2, workload)
-    ok, src = ctx.guard("viewer", wit, lambda: DecayChainViewer(chain).to_string())
+    def make():
+        if _ngraphs[0] % 4 != 3:
+            return DecayChainViewer(chain).to_string()
+        # every fourth graph of the session is made in a worker thread (joined at once: no concurrency, only another thread of the same process)
+        import threading  # noqa: PLC0415
+
+        box = {}
+
+        def work():
+            try:
+                box["src"] = DecayChainViewer(chain).to_string()
+            except BaseException as e:  # noqa: BLE001
+                box["err"] = e
+
+        t = threading.Thread(target=work)
+        t.start()
+        t.join()
+        ctx.hit("graph-made-in-a-worker-thread")
+        if "err" in box:
+            raise box["err"]
+        return box["src"]
+
+    ok, src = ctx.guard("viewer", wit, make)
     if not ok:
         return
     _ngraphs[0] += 1
@@ -219,6 +241,14 @@ def run(ctx):
                     for ln in st["lines"]:
                         if r.random() < 0.3:
                             ln["bf"] = r.choice(["0", "0.0000", "0.0"])
+        if i % 5 == 2:      # branching fractions with more digits than any shipped file has (results of arithmetic, e.g. 1 - sum of the others)
+            for st in stmts:
+                if st["k"] == "Decay":
+                    for ln in st["lines"]:
+                        if r.random() < 0.5:
+                            ln["bf"] = r.choice(["0.3333333333333333", "0.30000000000000004", "0.6070566666665668", "0.0596100000001", "1e-15", "0.123456789012345",
+                                                 "0.1234567890123", "2.2250738585072014e-308", "0.99999999999999"])
+                            ctx.hit("branching-fraction-with>12-significant-digits")
         if i % 4 == 1:
             for st in stmts:
                 if st["k"] == "Decay" and st["lines"] and r.random() < 0.5:
@@ -244,7 +274,8 @@ def run(ctx):
     for i in range(ctx.pick(15, 150)):
         n = r.choice([1, 2, 3, 4, 6])
         ch = chains.random_chain(r, n, max_mult=2)
-        dc = DecayChain(ch["mother"], {k: DecayMode(0 if (i + j) % 4 == 0 else v[0], v[1], model="PHSP") for j, (k, v) in enumerate(ch["types"].items())})
+        dc = DecayChain(ch["mother"], {k: DecayMode(0 if (i + j) % 4 == 0 else (v[0] / 3 + 0.1 + 0.2 if (i + j) % 4 == 1 else v[0]), v[1], model="PHSP")
+                                       for j, (k, v) in enumerate(ch["types"].items())})
         d = dc.to_dict()
         ctx.hit("from-class-representation")
         classify(ctx, d)
